@@ -9,6 +9,14 @@
      T token per event  <-|S|E>:<retained bytes>             per macro  <reports>x:<retained after>
    mode R  TlsClientHelloReader on its own:  item = <chunk hex>  |  <template hex>*<count>*<size>
      token per chunk <S|N|E>:<buffer_len>                    per macro  <S count>x:<buffer_len after>
+   modes P, L, K  the same analyzers reached through the public parallel entry points
+     (HuginnNet{Http,Tls,Tcp}::with_config.. + init_pool, ONE worker, so the worker's table is the whole
+     analyzer):  <mode> <capacity> <queue size> <items>; the queue size must not influence anything the
+     model says (one packet is in flight at a time): the worker's table has the configured capacity.
+     P  items as in mode H; token per event <-|Q|R>, per macro <reports>x
+     L  items as in mode T; result = the reports in order, S<conn><c|s> each, or - if there is none
+     K  item = <conn><c|s>:<tsval> (a SYN / SYN+ACK carrying that TSval; the harness advances an injected
+        clock so that every comparison with a stored reference succeeds); token u (uptime reported) or -
    mode U  uptime tracker (Model/Tracker.v), frequency computation always failing (equal TSval):
      item = <conn><c|s>:<tsval>            token = number of records in the tracker afterwards
    MODEL = the tokens; SPEC = the same line when every packet satisfies Spec/BoundSpec.v
@@ -251,6 +259,44 @@ Fixpoint run_u (t : tracker) (ops : list (ckey * tsrec)) : list bytes * list (N 
       (show_N (retained_tcp t1) :: toks, (retained_tcp t1, 1, 0) :: obs)
   end.
 
+(* ---- modes P, L, K: one-worker pools (the queue size is not part of the model) ---- *)
+Definition tok_p (st : state) (g : bool * list event) : state * bytes * list (N * N * N) :=
+  let segs := map wire (snd g) in
+  let '(st1, prof) := http_profile recog_req recog_resp st segs in
+  let obs := map (fun x => let '(_, r, c) := fst x in (r, c, len_N (g_pay (snd x)))) (combine prof segs) in
+  let tok :=
+    if fst g then show_N (len_N (filter (fun x => is_report_h (fst (fst x))) prof)) ++ bs "x"
+    else match prof with (o, _, _) :: _ => kind_h o | [] => bs "?" end in
+  (st1, tok, obs).
+Fixpoint run_p (st : state) (gs : list (bool * list event)) : list bytes * list (N * N * N) :=
+  match gs with
+  | [] => ([], [])
+  | g :: r => let '(st1, tok, obs) := tok_p st g in
+              let '(toks, obss) := run_p st1 r in (tok :: toks, obs ++ obss)
+  end.
+
+Definition who_tok (e : event) : bytes := bs "S" ++ show_N (e_conn e) ++ (if e_client e then bs "c" else bs "s").
+Fixpoint run_l (st : tstate) (evs : list event) : list bytes * list (N * N * N) :=
+  match evs with
+  | [] => ([], [])
+  | e :: r =>
+      let p := wire e in
+      let c := cost_tls st p in
+      let '(st1, o) := tstep tls_parse_gen st p in
+      let ret := retained_tls st1 in
+      let '(toks, obs) := run_l st1 r in
+      ((match o with TOutSome => who_tok e :: toks | _ => toks end), (ret, c, len_N (g_pay p)) :: obs)
+  end.
+
+Fixpoint run_k (t : tracker) (ops : list (ckey * tsrec)) : list bytes * list (N * N * N) :=
+  match ops with
+  | [] => ([], [])
+  | (k, cur) :: r =>
+      let '(t1, rep) := check_ts (fun _ _ => true) t k cur in
+      let '(toks, obs) := run_k t1 r in
+      ((if rep then bs "u" else bs "-") :: toks, (retained_tcp t1, 1, 0) :: obs)
+  end.
+
 Definition spec_of (cap : N) (model : bytes) (obs : list (N * N * N)) : bytes :=
   match first_violation cap obs 0 with
   | None => model
@@ -281,6 +327,33 @@ Definition run_line (l : bytes) : bytes :=
                          let model := join (bs " ") toks in
                          out3 model (if perr then bs "-" else spec_of 1 model obs) false
             | None => bs "BADCASE" end
+          else if bytes_eqb m (bs "P") then
+            match ts with
+            | q :: ts' =>
+                match read_N q, parse_items ts' with
+                | Some _, Some gs => let '(toks, obs) := run_p (cache_new cap) gs in
+                                     let model := join (bs " ") toks in
+                                     out3 model (spec_of cap model obs) (negb (within_bounds cap obs))
+                | _, _ => bs "BADCASE" end
+            | [] => bs "BADCASE" end
+          else if bytes_eqb m (bs "L") then
+            match ts with
+            | q :: ts' =>
+                match read_N q, parse_items ts' with
+                | Some _, Some gs => let '(toks, obs) := run_l (cache_new cap) (concat (map snd gs)) in
+                                     let model := match toks with [] => bs "-" | _ => join (bs " ") toks end in
+                                     out3 model (spec_of cap model obs) false
+                | _, _ => bs "BADCASE" end
+            | [] => bs "BADCASE" end
+          else if bytes_eqb m (bs "K") then
+            match ts with
+            | q :: ts' =>
+                match read_N q, parse_u_items ts' with
+                | Some _, Some ops => let '(toks, obs) := run_k (cache_new cap) ops in
+                                      let model := join (bs " ") toks in
+                                      out3 model (spec_of cap model obs) false
+                | _, _ => bs "BADCASE" end
+            | [] => bs "BADCASE" end
           else if bytes_eqb m (bs "U") then
             match parse_u_items ts with
             | Some ops => let '(toks, obs) := run_u (cache_new cap) ops in
